@@ -392,7 +392,13 @@ impl Gen {
           }
           1 => {
             let (a, s) = self.pick_ty(maxseg.max(8));
-            ops.push(format!("alloc_t {id} {a} {s}"));
+            if self.rng.chance(40) {
+              // the aligned-bytes entry point (its own bump loop and its own slow-path retry loop)
+              let extra = self.rng.pick(&[0u64, 1, 8, 24]);
+              ops.push(format!("alloc_aligned {id} {a} {s} {extra}"));
+            } else {
+              ops.push(format!("alloc_t {id} {a} {s}"));
+            }
             let b = self.byte();
             ops.push(format!("fill {id} {b}"));
             ops.push(format!("verify {id}"));
